@@ -74,4 +74,26 @@ def handleMsl (line : String) : String :=
   | some [.list (.atom "error" :: _)] => "error"
   | _ => "bad-case line"
 
+def parseGlslDecl : Sexp → Option GlslDecl
+  | .list (.atom "struct" :: .atom n :: fs) => do
+    let fields ← fs.mapM (fun f => match f with
+      | .list (.atom "f" :: .atom t :: .atom nm :: ds) => do some ({ ty := t, name := nm, dims := ← ds.mapM Sexp.nat? } : GlslField)
+      | _ => none)
+    some { name := n, fields := fields }
+  | _ => none
+
+/-- `(glsl std430|std140 "<top>" decl...)` ↦ the layout numbers the block's qualifier gives the declarations the GLSL back
+end wrote (no `offset` qualifiers are written). -/
+def handleGlsl (line : String) : String :=
+  match Sexp.parseLine line with
+  | some [.list (.atom "glsl" :: .atom q :: .atom top :: ds)] =>
+    match ds.mapM parseGlslDecl with
+    | some decls =>
+      match glslDump (q == "std140") decls 64 top with
+      | some d => showList d
+      | none => "unreadable-declarations"
+    | none => "bad-case decl"
+  | some [.list (.atom "error" :: _)] => "error"
+  | _ => "bad-case line"
+
 end Naga.Driver.C07
